@@ -26,7 +26,8 @@ def build(h, cast):
         ops.append({"op": "connect", "c": w["c"], "n": w["n"], "client": "watch%d" % w["c"], "user": w.get("user", ""), "ka": 60000})
         ops.append({"op": "sub", "c": w["c"], "id": 1, "fs": w["fs"]})
     for p in cast.get("publishers", []):
-        ops.append({"op": "connect", "c": p["c"], "n": p["n"], "client": "pub%d" % p["c"], "user": p.get("user", ""), "ka": 60000})
+        ops.append({"op": "connect", "c": p["c"], "n": p["n"], "client": "pub%d" % p["c"], "user": p.get("user", ""), "ka": 60000,
+                    "auto": "norel" if p.get("q") == 2 else "all"})
     npub = 0
     nsub = {}
     gone = set()
@@ -60,10 +61,15 @@ def build(h, cast):
             elif e["x"] == "second-connect":
                 ops.append({"op": "send", "c": c, "kind": "CONNECT", "client": "again"})
         elif op == "publish":
-            for p in cast.get("publishers", []):
+            rels = []
+            # QoS 2 publishers go first and release (PUBREL) only after everybody else has published in between
+            for p in sorted(cast.get("publishers", []), key=lambda p: -p.get("q", 1)):
                 npub += 1
                 t = p["topics"][npub % len(p["topics"])]
                 ops.append({"op": "pub", "c": p["c"], "t": t, "p": "p%d" % npub, "q": p.get("q", 1), "r": p.get("r", False), "id": 100 + npub})
+                if p.get("q") == 2:
+                    rels.append({"op": "send", "c": p["c"], "kind": "PUBREL", "id": 100 + npub})
+            ops += rels
         elif op == "peerfail":
             ops.append({"op": "peerfail", "n": c, "ms": 3300})
     # every connection that may still be served says hello once more, so that displaced sessions are told
